@@ -85,6 +85,11 @@ impl<'a> WireFormat<'a> for NSEC<'a> {
 
     fn len(&self) -> usize {
         self.next_name.len()
+            + self
+                .type_bit_maps
+                .iter()
+                .map(|record| record.bitmap.len() + 2)
+                .sum::<usize>()
     }
 }
 
